@@ -493,7 +493,6 @@ def inject_prefit_fault(paths, stage):
         # opened for it keeps the first half of the text
         import autofit.non_linear.paths.directory as D
         real_json = D.json
-        root = str(paths.output_path)
 
         class DyingJson:
             def __getattr__(self, k):
@@ -501,7 +500,7 @@ def inject_prefit_fault(paths, stage):
 
             def dump(self, obj, fh, **kw):
                 fn = str(getattr(fh, "name", ""))
-                if fn.startswith(root) and os.path.basename(fn).startswith(name + ".json"):
+                if os.path.basename(os.path.dirname(fn)) == "files" and os.path.basename(fn).startswith(name + ".json"):
                     text = real_json.dumps(obj, **kw)
                     fh.write(text[: max(1, len(text) // 2)])
                     fh.flush()
